@@ -65,21 +65,26 @@ def family_of(lines):
     return 'TOUGH2'
 
 
-def extract_tables(path, max_rows=60):
+def extract_tables(path, max_rows=60, skip_times=0):
     """First table of each kind in the file: list of dicts
-    {kind, header, rows (first contiguous block of result lines, <= max_rows), line_no}."""
+    {kind, header, rows (first contiguous block of result lines, <= max_rows), line_no}.
+    skip_times = n (TOUGH2 family): the first table of each kind after the (n+1)th
+    'OUTPUT DATA AFTER' line, i.e. the tables of result time n (0-based)."""
     lines = read_lines(path)
     fam = family_of(lines)
     out, seen = [], {}
     n = len(lines)
     i = 0
     started = fam == 'AUTOUGH2'
+    ntimes = 0
     nelt = 0
     full_marker = -100
     while i < n:
         l = lines[i]
         if not started:
-            if 'output data after' in l.lower(): started = True
+            if 'output data after' in l.lower():
+                ntimes += 1
+                started = ntimes > skip_times
             i += 1; continue
         if l[1:6] in ('EEEEE', 'CCCCC', 'GGGGG'): full_marker = i
         nk = _is_header(l)
@@ -270,3 +275,26 @@ def row_index_value(row, first_value_start):
     """the printed row index (integer before the values), or None"""
     m = re.search(r'(\d+)\s*$', row[:first_value_start])
     return int(m.group(1)) if m else None
+
+
+# ---------------------------------------------------------------------------
+# rows of other printed widths (tables that may print incomplete lines) and other result times
+
+def extend_row(row, toks, ncols):
+    """`row` with its last printed field repeated until it holds `ncols` numbers (the fields of
+    one table are printed with one format, so this is the row the simulator prints when the
+    remaining columns apply to it).  None when the row has fewer than 2 numbers (field width
+    unknown); the row itself when it already has ncols numbers."""
+    if len(toks) >= ncols: return row
+    if len(toks) < 2: return None
+    body = row.rstrip('\r\n')
+    field = body[toks[-2]['end']:toks[-1]['end']]
+    return body[:toks[-1]['end']] + field * (ncols - len(toks)) + row[len(body):]
+
+
+def row_of_width(name_row, base_row, base_toks, w):
+    """the row with the names and index of `name_row` and the first `w` printed numbers of
+    `base_row` (nothing printed after them: incomplete lines end at their last number)."""
+    vstart = base_toks[0]['start']
+    body = base_row.rstrip('\r\n')
+    return name_row[:vstart] + body[vstart:base_toks[w - 1]['end']] + base_row[len(body):]
